@@ -23,7 +23,7 @@ import threading
 import time
 
 HERE = os.path.dirname(os.path.abspath(__file__))
-TARGETS = ["Rawr.Proofs.RustSearchAgree", "Rawr.Proofs.RustSearchAgree_Sort", "Rawr.Proofs.RustSearchAgree_QSearch",
+TARGETS = ["Rawr.Proofs.RustSearchAgree", "Rawr.Proofs.RustSearchAgree_Perft", "Rawr.Proofs.RustSearchAgree_Sort", "Rawr.Proofs.RustSearchAgree_QSearch",
            "Rawr.Proofs.RustSearchAgree_Negamax", "Rawr.Proofs.RustSearchAgree_Root"]
 P, H, Q, N, R, S = ("src/chess/perft.rs", "src/search/hashtable.rs", "src/search/qsearch.rs", "src/search/negamax.rs",
                     "src/search/root.rs", "src/search/score.rs")
